@@ -149,12 +149,9 @@ fn pass0_internal(
                     context.expansions.set(context.expansions.get() + 1);
                     let segments = macro_expand(line, macro_name, ops, context, macroses)?;
                     if !segments.is_empty() {
-                        let (current_address, current_type) = {
-                            let current_segment = context.last_segment().unwrap();
-                            let current_segment = current_segment.borrow();
-                            (current_segment.address, current_segment.t)
-                        };
-                        if segments[0].address != current_address || segments[0].t != current_type {
+                        let current_type = context.last_segment().unwrap().borrow().t;
+                        // the body goes on where the call stands unless it begins with an .org or a segment directive
+                        if segments[0].address != 0 || segments[0].t != current_type {
                             context.add_segment(Segment {
                                 address: segments[0].address,
                                 t: segments[0].t,
@@ -192,11 +189,12 @@ fn macro_expand(
     context: &Pass0Context,
     macroses: &HashMap<String, Vec<(CodePoint, String)>>,
 ) -> Result<Vec<Segment>, Error> {
-    // the body starts in the segment the call stands in
+    // the body starts in the segment the call stands in, at the current location (address 0: no .org of its own)
+    let caller_type = context.last_segment().unwrap().borrow().t;
     let segments = Rc::new(RefCell::new(vec![Rc::new(RefCell::new(Segment {
         items: vec![],
-        t: context.last_segment().unwrap().borrow().t,
-        address: context.last_segment().unwrap().borrow().address,
+        t: caller_type,
+        address: 0,
     }))]));
     if let Some(macro_body) = macroses.get(macro_name) {
         let macro_body = if !ops.is_empty() {
@@ -232,9 +230,10 @@ fn macro_expand(
     let segments = segments.borrow();
     let mut expanded: Vec<Segment> = vec![];
     for (i, segment) in segments.iter().enumerate() {
-        // a segment directive at the end of the body opens an empty segment: it is what the lines after the call go to
-        let closes_body = i + 1 == segments.len() && !expanded.is_empty();
-        if !segment.borrow().is_empty() || closes_body {
+        // the segment the body ends in is what the lines after the call go to: it is kept, even when empty, unless nothing
+        // happened at all (no item, no .org, still the memory of the call)
+        let closes_body = i + 1 == segments.len() && (!expanded.is_empty() || segment.borrow().t != caller_type);
+        if !segment.borrow().is_empty() || segment.borrow().address != 0 || closes_body {
             expanded.push(segment.borrow().clone());
         }
     }
